@@ -2,6 +2,7 @@ package main
 
 import (
 	"fmt"
+	"go/token"
 	"go/types"
 	"os"
 	"strings"
@@ -206,6 +207,9 @@ func (fc *FnCtx) call(ins ssa.Instruction, cc *ssa.CallCommon, res ssa.Value) {
 		// dispatch tables are filled by constructors); listed as an assumption
 		fc.g.note("dynamic calls: the function value is assumed non-nil")
 		if fc.funcParamCall(ins, cc, fv, args, setResult) {
+			return
+		}
+		if fc.funcFieldCall(ins, cc, args, setResult) {
 			return
 		}
 		for c := fc; c != nil; c = c.parent {
@@ -823,8 +827,20 @@ func (fc *FnCtx) applyContract(ins ssa.Instruction, c *Contract, name string, si
 	penv.state = fc.cur
 	penv.oldState = old
 	bindResults(penv, rs, rn)
+	penv.callSite = true
 	for _, en := range c.Ensures {
-		fc.assume(penv.boolExpr(en.Expr), "callee postcondition "+short)
+		func() {
+			defer func() {
+				if r := recover(); r != nil {
+					if sk, ok := r.(cxSkip); ok {
+						g.note("postcondition of " + short + " not used at its call sites (" + sk.why + "): " + en.Name)
+						return
+					}
+					panic(r)
+				}
+			}()
+			fc.assume(penv.boolExpr(en.Expr), "callee postcondition "+short)
+		}()
 	}
 	return rs
 }
@@ -1207,5 +1223,39 @@ func (fc *FnCtx) funcValCall(ins ssa.Instruction, cc *ssa.CallCommon, args []Val
 		rs = append(rs, Val{t: mergeVals(g, []string{reachA, reachB}, []string{rsA[i].t, rsB[i].t}, g.sortOf(rsA[i].ty)), ty: rsA[i].ty})
 	}
 	setResult(rs)
+	return true
+}
+
+// funcFieldCall: a call through a function value that was just loaded from a struct field T.f for which a contract
+// `trusted func field:T.f` is declared (in the contract file of T's package).  The contract is an assumption about
+// every function value stored in that field; it typically defines ghost counters ("the failure callback was invoked").
+func (fc *FnCtx) funcFieldCall(ins ssa.Instruction, cc *ssa.CallCommon, args []Val, setResult func([]Val)) bool {
+	ld, ok := cc.Value.(*ssa.UnOp)
+	if !ok || ld.Op != token.MUL {
+		return false
+	}
+	fa, ok := ld.X.(*ssa.FieldAddr)
+	if !ok {
+		return false
+	}
+	pt, ok := fa.X.Type().Underlying().(*types.Pointer)
+	if !ok {
+		return false
+	}
+	nt, ok := unaliasDeep(pt.Elem()).(*types.Named)
+	if !ok || nt.Obj().Pkg() == nil {
+		return false
+	}
+	st, ok := nt.Underlying().(*types.Struct)
+	if !ok {
+		return false
+	}
+	key := nt.Obj().Pkg().Path() + "::field:" + nt.Obj().Name() + "." + st.Field(fa.Field).Name()
+	c, ok := fc.g.cs.Funcs[key]
+	if !ok {
+		return false
+	}
+	fc.g.trusted["assumed: function values stored in "+nt.Obj().Name()+"."+st.Field(fa.Field).Name()+" satisfy the contract declared for that field"] = true
+	setResult(fc.applyContract(ins, c, "field:"+nt.Obj().Name()+"."+st.Field(fa.Field).Name(), cc.Signature(), args, false, nil))
 	return true
 }
